@@ -261,7 +261,26 @@ fn count_terms(text: &str) -> u64 {
     1 + text.matches(" and").count() as u64 + text.matches(" or").count() as u64 + text.matches('(').count() as u64 + text.matches("and ").count() as u64
 }
 
+fn exit_parse_filter(doc: &[u8]) {
+    if let Ok(s) = std::str::from_utf8(doc) {
+        let _ = Filter::try_from(s);
+    }
+}
+
 pub fn run_case(case: &Case, ns: &'static Namespace<'static>) -> Outcome {
+    if case.scenario == "filter-thread-exit" {
+        // the filter is parsed from the destructor of a thread-local while its thread winds down
+        let mut out = Outcome::default();
+        let guard_first = case.extra.get("guard_first").and_then(|v| v.as_bool()).unwrap_or(true);
+        let r = decode_during_thread_exit(exit_parse_filter, &case.doc_bytes(), guard_first);
+        out.nontrivial = true;
+        out.probe("fault:parse-from-a-thread-local-destructor-at-thread-exit", 1);
+        if let Some((msg, loc)) = r {
+            out.violate(format!("C09 panic at thread exit {} {}", loc_class(&loc), msg_class(&msg)), format!("parsing a filter from a thread-local destructor while the thread exits panicked at {loc}: {msg}"));
+        }
+        out.fingerprint = mix(&[guard_first as u64, out.violation.is_some() as u64]);
+        return out;
+    }
     let doc = case.doc_bytes();
     let len = doc.len();
     let mut out = Outcome::default();
@@ -605,6 +624,8 @@ impl Engine for C09 {
             units.push(UnitSpec { id, name: format!("fields:{part}"), isolated: false, exhaustive: true });
             id += 1;
         }
+        units.push(UnitSpec { id, name: "thread-exit".into(), isolated: false, exhaustive: true });
+        id += 1;
         // two-fault enumeration for the short base filters
         let max2 = match self.ctx.tier {
             Tier::Quick => 12,
@@ -626,6 +647,18 @@ impl Engine for C09 {
         }
         if unit.name == "ladder" {
             return Box::new(self.ladder().into_iter());
+        }
+        if unit.name == "thread-exit" {
+            let mut cases = Vec::new();
+            for f in corpus::FILTER_HAND.iter() {
+                for guard_first in [true, false] {
+                    let mut c = Case::new("C09", "filter-thread-exit", f.as_bytes());
+                    c.extra.insert("guard_first".into(), guard_first.into());
+                    c.origin = format!("thread-exit filter guard_first={guard_first}");
+                    cases.push(c);
+                }
+            }
+            return Box::new(cases.into_iter());
         }
         if let Some(part) = unit.name.strip_prefix("fields:") {
             // every value of the two-digit fields of date / time / timestamp literals in a comparison
